@@ -293,8 +293,35 @@ func (preFetchHook) RateLimitPreFetch(ctx *resolve.Context, info *resolve.FetchI
 
 func (preFetchHook) RenderResponseExtension(*resolve.Context, io.Writer) error { return nil }
 
-// headersBuilder is what the router derives from the forwarded client headers.
-type headersBuilder struct{ hdr int }
+// subgraphNames are the subgraphs a plan can list in GraphQLResponse.DataSources; the one
+// fetch of every plan goes to the first.
+var subgraphNames = []string{"sub", "sub2", "sub3", "sub4"}
+
+func subgraphIndex(name string) int {
+	for i, n := range subgraphNames {
+		if n == name {
+			return i
+		}
+	}
+	return 0
+}
+
+// headersBuilder is what the router derives from the forwarded client headers. hdr (1..3) is
+// the client's header set. Mode "" (uniform): every subgraph receives the same set ("propagate
+// Authorization to all"), so the per-subgraph hashes are equal across subgraphs. Mode "rotate":
+// subgraph i receives set ((hdr-1+i) mod 3)+1, so the per-subgraph hashes differ across
+// subgraphs and different clients send the same multiset of sets to the first three subgraphs.
+type headersBuilder struct {
+	hdr  int
+	mode string
+}
+
+func (b headersBuilder) setFor(name string) int {
+	if b.mode == "rotate" {
+		return (b.hdr-1+subgraphIndex(name))%3 + 1
+	}
+	return b.hdr
+}
 
 func hash64(s string) uint64 {
 	h := fnv.New64a()
@@ -306,11 +333,12 @@ func hash64(s string) uint64 {
 	return x
 }
 
-func (b headersBuilder) HeadersForSubgraph(string) (http.Header, uint64) {
-	return http.Header{"X-Verif-H": []string{strconv.Itoa(b.hdr)}}, hash64("hdr:" + strconv.Itoa(b.hdr))
+func (b headersBuilder) HeadersForSubgraph(name string) (http.Header, uint64) {
+	v := strconv.Itoa(b.setFor(name))
+	return http.Header{"X-Verif-H": []string{v}}, hash64("hdr:" + v)
 }
 
-func (b headersBuilder) HashAll() uint64 { return hash64("all:" + strconv.Itoa(b.hdr)) }
+func (b headersBuilder) HashAll() uint64 { return hash64("all:" + b.mode + ":" + strconv.Itoa(b.hdr)) }
 
 func opTypeOf(s string) ast.OperationType {
 	switch s {
@@ -332,7 +360,7 @@ func clientOpID(op int, alt bool) int {
 }
 
 // buildPlan is the (cached, shared between requests) plan of one client operation.
-func buildPlan(op int, alt bool, opType string) *resolve.GraphQLResponse {
+func buildPlan(op int, alt bool, opType string, nDS int) *resolve.GraphQLResponse {
 	pre := fmt.Sprintf(`{"method":"POST","url":"http://sub.test","body":{"query":"query($v:Int){f%d(v:$v)}","variables":{"v":`, op)
 	post := `}}}`
 	fetch := &resolve.SingleFetch{
@@ -365,10 +393,17 @@ func buildPlan(op int, alt bool, opType string) *resolve.GraphQLResponse {
 			{Name: []byte("f"), Value: &resolve.String{Path: []string{"f"}, Nullable: true}},
 		}
 	}
+	// what postprocess.CollectDataSourceInfo() leaves on the plan: the subgraphs the operation
+	// talks to (the fetched one first; the others stand for further fetches of the operation)
+	var dss []resolve.DataSourceInfo
+	for i := 0; i < nDS && i < len(subgraphNames); i++ {
+		dss = append(dss, resolve.DataSourceInfo{ID: "ds-" + subgraphNames[i], Name: subgraphNames[i]})
+	}
 	return &resolve.GraphQLResponse{
-		Fetches: resolve.SingleWithPath(fetch, "query"),
-		Data:    &resolve.Object{Nullable: true, Fields: fields},
-		Info:    &resolve.GraphQLResponseInfo{OperationType: opTypeOf(opType)},
+		Fetches:     resolve.SingleWithPath(fetch, "query"),
+		Data:        &resolve.Object{Nullable: true, Fields: fields},
+		Info:        &resolve.GraphQLResponseInfo{OperationType: opTypeOf(opType)},
+		DataSources: dss,
 	}
 }
 
@@ -432,27 +467,27 @@ func discardRig(r *rig) {
 	}
 }
 
-func (r *rig) plan(op int, alt bool, opType string) *resolve.GraphQLResponse {
-	id := fmt.Sprintf("%d/%s", clientOpID(op, alt), opType)
+func (r *rig) plan(op int, alt bool, opType string, nDS int) *resolve.GraphQLResponse {
+	id := fmt.Sprintf("%d/%s/%d", clientOpID(op, alt), opType, nDS)
 	r.mu.Lock()
 	defer r.mu.Unlock()
 	if p, ok := r.plans[id]; ok {
 		return p
 	}
-	p := buildPlan(op, alt, opType)
+	p := buildPlan(op, alt, opType, nDS)
 	r.plans[id] = p
 	return p
 }
 
 // request builds the resolve.Context exactly as a router would for (client operation, key).
-func (r *rig) request(ctx context.Context, layer, opType string, k Key, alt bool, w *who) *resolve.Context {
+func (r *rig) request(ctx context.Context, layer, opType, hdrMode string, k Key, alt bool, w *who) *resolve.Context {
 	ctx = context.WithValue(ctx, whoKey{}, w)
 	rc := resolve.NewContext(ctx)
 	rc.Request.ID = hash64(fmt.Sprintf("op:%d:%s", clientOpID(k.Op, alt), opType))
 	rc.Variables = astjson.MustParseBytes([]byte(fmt.Sprintf(`{"v":%d}`, k.Var)))
 	rc.VariablesHash = hash64(fmt.Sprintf("vars:%d", k.Var))
 	if k.Hdr != 0 {
-		rc.SubgraphHeadersBuilder = headersBuilder{k.Hdr}
+		rc.SubgraphHeadersBuilder = headersBuilder{k.Hdr, hdrMode}
 	}
 	rc.RateLimitOptions.Enable = true
 	rc.SetRateLimiter(preFetchHook{})
@@ -493,9 +528,9 @@ func alone(layer, opType string, k Key, alt bool, script string) outcome {
 	r := newRig(0)
 	defer r.stop()
 	w := &who{pid: -1, script: script, loads: &loadLog{}}
-	rc := r.request(context.Background(), layer, opType, k, alt, w)
+	rc := r.request(context.Background(), layer, opType, "", k, alt, w)
 	var out strings.Builder
-	info, err := r.resolver.ArenaResolveGraphQLResponse(rc, r.plan(k.Op, alt, opType), &out)
+	info, err := r.resolver.ArenaResolveGraphQLResponse(rc, r.plan(k.Op, alt, opType, 0), &out)
 	o := outcome{Returned: true, Out: out.String(), err: err}
 	if err != nil {
 		o.Err = err.Error()
